@@ -769,6 +769,22 @@ func reachWalkEnv(b *ssa.BasicBlock, k int, target, stop func(ssa.Instruction) b
 		return nil
 	}
 	env0 := map[ssa.Value]bool{}
+	// what the dominating branches say about boolean values at the starting point
+	for _, f := range directFacts(b) {
+		c, taken := f.Cond, f.Taken
+		for {
+			if u, ok := c.(*ssa.UnOp); ok && u.Op == token.NOT {
+				c, taken = u.X, !taken
+				continue
+			}
+			break
+		}
+		if basicKind(c.Type()) == types.Bool {
+			if _, isBin := c.(*ssa.BinOp); !isBin {
+				env0[c] = taken
+			}
+		}
+	}
 	for kk, x := range assume {
 		env0[kk] = x
 	}
